@@ -386,9 +386,13 @@ def C17_close_never_raises_full : Prop :=
 cancellation): every block of every `async_close()` — called on a running instance, during start-up, overlapping any number
 of other closes, woken by the start-up event or by its own 1 s timeout, after another close has finished — and every block
 of every sync `close()` from a non-loop thread, **provided** the block is not `_close()` running on the callback thread of a
-live browser of `Zeroconf.browsers` (`selfJoins`: finding D30) and the loop-thread bookkeeping is intact (`LoopInv`: preserved
-by every block except a sync close entering `_shutdown_threads()` while another one is about to stop the loop — finding D34;
-`C17_loop_invariant`).  (Not covered: `EventLoopBlocked` out of sync `close()` on a blocked loop — outside the loop axioms.)
+live browser of `Zeroconf.browsers` (`selfJoins`: finding D30) and the loop-thread bookkeeping is intact (`LoopInv`: a remembered
+loop thread runs its loop; **a sync close that has submitted a coroutine to the loop and blocks on it finds the loop running**; at
+most one sync close is about to stop it -- preserved by every block except the two of `overlapsStop`: a sync close entering
+`_shutdown_threads()` while another one is about to stop the loop, or *stopping the loop while another sync close waits on it* --
+finding D34, both forms; `C17_loop_invariant`).  The `EventLoopBlocked` a sync close gets when the loop it waits on was stopped by
+another close is the block `closeBlocked` (`C17_blocked_sync_close_raises`); a loop that runs but is *blocked* by the application
+for longer than the safeguard is outside the model (no block of the machine takes time).
 False before fix 25230c1 for the async wait: `C17_wake_raised_before_fix`. -/
 theorem C17_close_never_raises_partial (h : Host) (b : Block) (hb : b.plainClose = true) (hnj : b.selfJoins h = false)
     (hl : LoopInv h) (h' : Host) (o : List Out) (hs : step h b = some (h', o)) (e : Exc) : Out.raised e ∉ o := by
